@@ -447,6 +447,11 @@ class StmtMixin(object):
             raise Unsupported('record item assignment with symbolic key at line %s' % line)
         if isinstance(b, RefV) and b.kind == 'list':
             cur = st.heap[(b.id, 'val')]
+            hook = self.spec.hints.get('set_item')
+            outs = hook(self, b, cur, i, v, st, line) if hook is not None else None
+            if outs is not None:            # a list of (state, exception or None)
+                yield from outs
+                return
             if isinstance(cur, SeqV) and is_intlike(v):
                 ii = to_int(i)
                 ln = z3.Length(cur.t)
@@ -570,6 +575,11 @@ class StmtMixin(object):
 
     def havoc_value(self, v, name):
         """a fresh value of the same tag as v"""
+        hook = self.spec.hints.get('havoc_value')
+        if hook is not None:
+            r = hook(self, v, name)
+            if r is not None:
+                return r
         if self.spec.hints.get('functional_lists') and (
                 (isinstance(v, SeqV) and v.kind == 'list') or (isinstance(v, PyListV) and all(is_intlike(i) for i in v.items))
                 or (isinstance(v, ListV) and v.tag == 'flist')):
